@@ -425,7 +425,7 @@ Denotes(dt, c0, v, prev, path) ==
                     ELSE prev.j = "obj" /\ k \in Keys(prev) /\ ValOf(v, k) = ValOf(prev, k)
 
 (* ------------------------------------------------------ candidate catalogues *)
-LitLen(s) == CASE s = "5" -> 1 [] s = "s" -> 1 [] s = "k" -> 1 [] s = "c" -> 1 [] s = "a" -> 1 [] s = "b" -> 1 [] s = "x" -> 1 [] s = "zz" -> 2
+LitLen(s) == CASE s = "STANDBY" -> 7 [] s = "RAMPING" -> 7 [] s = "ERROR" -> 5 [] s = "5" -> 1 [] s = "s" -> 1 [] s = "k" -> 1 [] s = "c" -> 1 [] s = "a" -> 1 [] s = "b" -> 1 [] s = "x" -> 1 [] s = "zz" -> 2
                [] s = "on" -> 2 [] s = "off" -> 3 [] s = "YWJ" -> 3
                [] s = "!!!!YWJj" -> 8 [] s = "YQ==YQ==" -> 8
 Lit(s) == S("ascii", LitLen(s), -1, s)                   \* none of the literals is strictly valid base64
@@ -919,6 +919,9 @@ Arr(el, lo, hi) == [k |-> "array", el |-> el, minlen |-> lo, maxlen |-> hi]
 Tup(els) == [k |-> "tuple", els |-> els]
 Stc(mem, opt) == [k |-> "struct", mem |-> mem, opt |-> opt]
 M(n, t) == [n |-> n, t |-> t]
+\* StatusType: tuple(enum of standard status codes, string) built by the convenience class
+Status == [k |-> "tuple", status |-> TRUE,
+           els |-> <<Enm(<<[n |-> "STANDBY", v |-> 130], [n |-> "RAMPING", v |-> 370], [n |-> "ERROR", v |-> 400]>>), Strg(0, NoLim, FALSE)>>]
 
 Leaves == <<Dbl(-16, 40, 0, 0), Dbl(0, 160, 4, 0), Dbl(16, 16, 0, 1), Dbl(-NoLim, NoLim, 0, 0), Dbl(-NoLim, 32, 0, 1),
             IntT(-2, 3), IntT(5, 5), Scl(4, 0, 160), Scl(32, -64, 6400), BoolT,
@@ -932,7 +935,7 @@ Leaves == <<Dbl(-16, 40, 0, 0), Dbl(0, 160, 4, 0), Dbl(16, 16, 0, 1), Dbl(-NoLim
             GScl("7", -3, 9), GScl("1e6", 0, 12),
             \* convenience types and the shapes the short constructor forms produce (StringType(n), BLOBType(n), IntRange())
             Text(NoLim), Text(5), Lim(Dbl(-16, 40, 4, 0)), Lim(IntT(-2, 3)), Lim(Scl(4, 0, 160)), Lim(GScl("0.1", 3, 7)),
-            Strg(2, 2, FALSE), Blob(2, 2), IntT(-16777216, 16777216)>>
+            Strg(2, 2, FALSE), Blob(2, 2), IntT(-16777216, 16777216), Status>>
 NL == Len(Leaves)
 Lf(i) == Leaves[((i - 1) % NL) + 1]
 SmallLeaves == <<IntT(-2, 3), GScl("0.1", 3, 7), BigT(P(1, 1), P(4, -1)), Blob(1, 3), Scl(4, 0, 160), GScl("1/3", -6, 1000000),
@@ -1009,12 +1012,14 @@ CTypes(tier) == IF tier = "thorough" THEN CLeaves \o CContainers \o Commands \o 
 (* types whose description / rebuild / copy is examined: the C01 catalogue with presentation properties *)
 ETypes(tier) == LET base == BaseSeq(tier) \o Commands IN
     [i \in 1 .. Len(base) |-> Deco(base[i], IF i % 3 = 0 THEN "" ELSE IF i % 3 = 1 THEN "K" ELSE "$/min",
-                                            IF i % 2 = 0 THEN "%g" ELSE "%.3f", i % 4 < 2)]
+                                            IF i % 2 = 0 THEN "%g" ELSE "%.4e", i % 4 < 2)]
 
 (* the catalogue a configuration walks through: C01/C02 type trees, C03 pair types ("c-"), C03 decorated types ("e-") *)
 TypeSeq(tier) == CASE tier \in {"mc", "quick", "thorough"} -> BaseSeq(tier)
                    [] tier = "c-quick" -> CTypes("quick")
                    [] tier = "c-thorough" -> CTypes("thorough")
+                   [] tier = "r-quick" -> SubSeq(ETypes("quick"), 1, Len(BaseSeq("quick")))          \* C02: value types with fmtstr / unit / resolutions
+                   [] tier = "r-thorough" -> SubSeq(ETypes("thorough"), 1, Len(BaseSeq("thorough")))
                    [] tier = "e-quick" -> ETypes("quick")
                    [] tier = "e-thorough" -> ETypes("thorough")
 
